@@ -92,3 +92,45 @@ def treewidth_bruteforce(n, edges):
         if best == 0:
             break
     return best
+
+
+def treewidth_dp(n, edges):
+    """exact treewidth by dynamic programming over vertex subsets: TW(S) = min_v max(TW(S - v), |Q(S - v, v)|),
+    Q(S, v) = vertices outside S + v reachable from v through S (Bodlaender, Fomin, Koster, Kratsch, Thilikos)"""
+    from functools import lru_cache
+    if n == 0:
+        return -1
+    nb = [0] * n
+    for u, v in edges:
+        nb[u] |= 1 << v
+        nb[v] |= 1 << u
+
+    @lru_cache(None)
+    def q(S, v):
+        seen, stack, out = 1 << v, [v], 0
+        while stack:
+            u = stack.pop()
+            m = nb[u] & ~seen
+            while m:
+                b = m & -m
+                w = b.bit_length() - 1
+                m ^= b
+                seen |= b
+                if S >> w & 1:
+                    stack.append(w)
+                else:
+                    out |= b
+        return bin(out).count('1')
+
+    @lru_cache(None)
+    def tw(S):
+        if S == 0:
+            return -1
+        best, m = n, S
+        while m:
+            b = m & -m
+            v = b.bit_length() - 1
+            m ^= b
+            best = min(best, max(tw(S ^ b), q(S ^ b, v)))
+        return best
+    return tw((1 << n) - 1)
